@@ -589,6 +589,18 @@ class World:
                 return BoundMethod("add", lambda I, x: obj.add(x))
             if name == "update":
                 return BoundMethod("update", lambda I, x: obj.update(_aslist(I, x)))
+            if name == "difference_update":
+                return BoundMethod("difference_update", lambda I, x: obj.difference_update(_aslist(I, x)))
+            if name == "intersection_update":
+                return BoundMethod("intersection_update", lambda I, x: obj.intersection_update(_aslist(I, x)))
+            if name == "discard":
+                return BoundMethod("discard", lambda I, x: obj.discard(x))
+            if name == "remove":
+                return BoundMethod("remove", lambda I, x: obj.remove(x))
+            if name == "copy":
+                return BoundMethod("copy", lambda I: set(obj))
+            if name in ("difference", "union", "intersection"):
+                return BoundMethod(name, lambda I, x, _n=name: getattr(obj, _n)(_aslist(I, x)))
         if isinstance(obj, str):
             if name == "startswith":
                 return BoundMethod("startswith", lambda I, p: obj.startswith(p))
